@@ -3,7 +3,7 @@
 # confirm them with verify_seed.sh and remove the sub-agent's worktree.
 set -u
 id=$1; r=$2; dst=${3:-}
-src=/tmp/seed$r/$id/SEED
+src=/tmp/seed$r/$id/SEED; [ -d "$src" ] || src=$(ls -d /tmp/seed$r/$id/*SEED* | head -1)
 out=/verif/seeded/$id-$r
 mkdir -p $out
 cp $src/patch.diff $src/README.md $out/ || exit 2
